@@ -26,6 +26,7 @@
 #include <stdlib.h>
 #include <string.h>
 #include <sys/mman.h>
+#include <sys/prctl.h>
 #include <sys/stat.h>
 #include <sys/types.h>
 #include <sys/uio.h>
@@ -45,6 +46,9 @@ static long fail_seq = -1;
 static int fail_errno = 0;
 static long fail_partial = -1;   /* for a write: write this many bytes, then fail the NEXT write */
 static void (*write_hook)(const char *name, size_t len) = NULL;
+/* tracked calls by the store's own background threads (its worker thread and the blocking pool of the
+   worker's runtime) and by everybody else, since the last iotrace_take_counts() */
+static long n_bg = 0, n_fg = 0;
 
 static int (*real_open64)(const char *, int, ...);
 static int (*real_open)(const char *, int, ...);
@@ -117,6 +121,13 @@ static void loghex(const unsigned char *p, size_t n) {
     }
 }
 
+static void note_thread(void) {
+    char nm[32] = {0};
+    prctl(PR_GET_NAME, nm, 0, 0, 0);
+    if (strncmp(nm, "bitcask-backgro", 15) == 0 || strncmp(nm, "tokio-runtime-w", 15) == 0) __sync_fetch_and_add(&n_bg, 1);
+    else __sync_fetch_and_add(&n_fg, 1);
+}
+
 static const char *tracked(const char *path) {
     if (!enabled || !path) return NULL;
     if (strncmp(path, dirpfx, dirlen) == 0 && path[dirlen] == '/') return path + dirlen + 1;
@@ -154,6 +165,10 @@ void iotrace_fail_at(long s, int err) {
     pthread_mutex_unlock(&mu);
 }
 void iotrace_set_write_hook(void (*h)(const char *, size_t)) { write_hook = h; }
+void iotrace_take_counts(long *bg, long *fg) {
+    *bg = __sync_lock_test_and_set(&n_bg, 0);
+    *fg = __sync_lock_test_and_set(&n_fg, 0);
+}
 
 /* returns 1 if this call must fail */
 static int take_fault(long s) {
@@ -166,7 +181,7 @@ static int do_open(const char *path, int flags, mode_t mode, int which, int dirf
     int wr = (flags & O_ACCMODE) != O_RDONLY || (flags & (O_CREAT | O_TRUNC));
     if (name && wr) {
         pthread_mutex_lock(&mu);
-        long s = seq++;
+        long s = seq++; note_thread();
         int need = O_CREAT | O_EXCL | O_APPEND;
         if ((flags & need) != need || (flags & O_TRUNC))
             logf_("illegal %ld open-flags-%x %s\n", s, flags, name);
@@ -229,7 +244,7 @@ ssize_t write(int fd, const void *buf, size_t n) {
     if (!name) return real_write(fd, buf, n);
     if (write_hook) write_hook(name, n);
     pthread_mutex_lock(&mu);
-    long s = seq++;
+    long s = seq++; note_thread();
     if (take_fault(s)) {
         logf_("write %ld %s %zu -%d \n", s, name, n, fail_errno);
         pthread_mutex_unlock(&mu);
@@ -264,7 +279,7 @@ static int do_sync(int fd, int data) {
     const char *name = name_of(fd);
     if (!name) return data ? real_fdatasync(fd) : real_fsync(fd);
     pthread_mutex_lock(&mu);
-    long s = seq++;
+    long s = seq++; note_thread();
     if (take_fault(s)) {
         logf_("fsync %ld %s -%d\n", s, name, fail_errno);
         pthread_mutex_unlock(&mu);
@@ -291,7 +306,7 @@ static int do_unlink(const char *path, int at, int dirfd, int flags) {
         pthread_mutex_unlock(&mu);
         return at ? real_unlinkat(dirfd, path, flags) : real_unlink(path);
     }
-    long s = seq++;
+    long s = seq++; note_thread();
     if (take_fault(s)) {
         logf_("unlink %ld %s -%d\n", s, name, fail_errno);
         pthread_mutex_unlock(&mu);
